@@ -88,6 +88,8 @@ def req(method, params=ABSENT, rid=ABSENT, v2=True):
 
 
 # entry kinds of C03/C04/C13: name -> builder(rid, v2)
+ODD_VERSIONS = [None, [2], {"v": 2}, True, 2, 2.0, "1.0", "1.1", "2", "two", 1, 1.0, 3, "", False, 0]
+
 ENTRY_KINDS = {
     "ok-call": lambda rid, v2: req("ok", [1, "x"], rid, v2),
     "raising-call": lambda rid, v2: req("fail", [], rid, v2),
@@ -105,6 +107,10 @@ ENTRY_KINDS = {
     "invalid-method-type": lambda rid, v2: req(5, [], rid, v2),
     "invalid-params-scalar": lambda rid, v2: req("ok", 7, rid, v2),
     "invalid-no-version": lambda rid, v2: {"method": "ok", "params": []},
+    # the "jsonrpc" member counts by its presence, whatever its value
+    "odd-version-call": lambda rid, v2: dict(req("ok", [3], rid, True), jsonrpc=ODD_VERSIONS[len(repr(rid)) % len(ODD_VERSIONS)]),
+    "odd-version-failing-call": lambda rid, v2: dict(req("fail", [], rid, True), jsonrpc=ODD_VERSIONS[(len(repr(rid)) + 3) % len(ODD_VERSIONS)]),
+    "odd-version-unknown": lambda rid, v2: dict(req("nope", [], rid, True), jsonrpc=ODD_VERSIONS[(len(repr(rid)) + 5) % len(ODD_VERSIONS)]),
 }
 
 
